@@ -179,14 +179,25 @@ def in_context(draw, e):
 
 
 
+FLUSH_SHAPES = [['X = """hello', 'world"""'], ["X = (a,", "b)"], ["X = [a,", "b,", "a]"], ["X = a + \\", "b"],
+                ["X = {'k': a,", "'j': b}"], ["X = '''p", "q", "r'''"]]
+
+
 @st.composite
 def fixable_function(draw, i):
     kind = draw(st.sampled_from(["unused", "unused", "unused-sole", "unused-multiline", "unused-tuple", "unused-comp",
                                  "missing_f", "use_fstrings-percent", "use_fstrings-format", "too-many-positional",
                                  "unused-ignore-trailing", "unused-ignore-own-line", "unused-aug", "unused-line1",
-                                 "unused-unicode", "use_fstrings-unicode", "unused-chain", "unused-chain-3"]))
+                                 "unused-unicode", "use_fstrings-unicode", "unused-chain", "unused-chain-3", "unused-multiline-flush",
+                                 "header-comp"]))
     wrap = draw(st.sampled_from(["none", "none", "if", "for", "try", "with", "class", "semicolons", "inline-if", "inline-def"]))
     head = f"def f{i}(a, b):"
+    decorated = draw(st.integers(0, 3)) == 0
+    if kind == "header-comp":
+        # a fixable expression in the header of a (possibly decorated) def: a default value
+        it = draw(st.sampled_from(["range(3)", "(1, 2)", '"ab"']))
+        comp = draw(st.sampled_from([f"[1 for x{i} in {it}]", f"{{1 for x{i} in {it}}}", f"{{1: 0 for x{i} in {it}}}"]))
+        head = f"def f{i}(a, b={comp}):"
     body = []
     if kind == "unused":
         body = [f"x{i} = a + 1", "return b"]
@@ -204,6 +215,13 @@ def fixable_function(draw, i):
         body = ["if a:", f"    x{i} = 1", "return b"]
     elif kind == "unused-multiline":
         body = [f"x{i} = [", "    a,", "    b,", "]", "return b"]
+    elif kind == "unused-multiline-flush":
+        # statements spanning several lines whose last line is not indented deeper than the first and is not a
+        # lone closing bracket
+        body = draw(st.sampled_from(FLUSH_SHAPES))
+        body = [l.replace("X", f"x{i}") for l in body] + ["return b"]
+    elif kind == "header-comp":
+        body = ["return b"]
     elif kind == "unused-tuple":
         body = [f"x{i}, y{i} = a, b", "return a"]
     elif kind == "unused-comp":
@@ -261,6 +279,8 @@ def fixable_function(draw, i):
     elif wrap == "inline-def" and simple:
         return kind, [head + " " + "; ".join(body)]
     lines = [head] + ["    " + l for l in body]
+    if decorated or (kind == "header-comp" and draw(st.booleans())):
+        lines = ["@deco"] + lines
     if wrap == "class":
         lines = [f"class K{i}:"] + ["    " + l.replace(f"def f{i}(a, b)", f"def f{i}(self, a, b)") for l in lines]
     return kind, lines
@@ -274,6 +294,9 @@ def fixable_program(draw):
         k, ls = draw(fixable_function(i))
         kinds.append(k)
         lines += ls
+    if any(l.strip() == "@deco" for l in lines):
+        # applying the decorator twice is visible in the result
+        lines = ["def deco(f):", "    def w(*p, **k):", "        return ('w', f(*p, **k))", "    return w"] + lines
     return kinds, "\n".join(lines) + "\n"
 
 
